@@ -230,6 +230,9 @@ def materialise(desc) -> Structure:
             s.ters.add(len(s.records) - 1)
         s.chains.append(meta)
         built.append(res)
+    s.strands = []
+    for si, strand in enumerate(desc.get("na", [])):
+        s.strands.append(strand_records(s, strand, si))
     # waters
     heavy = s.heavy_xyz() if s.records else np.zeros((0, 3))
     polar = [r["xyz"] for r in s.records if r["name"][0] in "NO"]
@@ -268,7 +271,7 @@ def min_nonbonded_gap(s: Structure):
             if keys[i] == keys[j]:
                 continue
             gi, gj = recs[i]["group"], recs[j]["group"]
-            if gi[0] == "chain" and gj[0] == "chain" and gi[1] == gj[1] and abs(gi[2] - gj[2]) == 1:
+            if gi[0] == gj[0] and gi[0] in ("chain", "na") and gi[1] == gj[1] and abs(gi[2] - gj[2]) == 1:
                 continue
             if D[i, j] < best:
                 best = float(D[i, j])
@@ -308,3 +311,51 @@ def selftest():
         assert abs(measure(res[1]["atoms"][a], res[1]["atoms"][b]) - measure(t[a], t[b])) < 1e-9
     chi1 = dihedral(*(res[1]["atoms"][k] for k in ("N", "CA", "CB", "CG")))
     assert abs(chi1 + 60) < 1e-6, chi1
+
+
+# --------------------------------------------------------------------------
+# nucleic acids
+# --------------------------------------------------------------------------
+NA_TEMPLATE = {"A": "RA", "C": "RC", "G": "RG", "U": "RU", "T": "DT"}
+
+
+def strand_records(s: Structure, st, index):
+    """Append a DNA/RNA strand built from template nucleotides stacked by a screw
+    transform.  Descriptor: {id, dna, seq (letters), p5, newnames, style, start, q, shift, hyd}."""
+    R = quat_to_rot(st.get("q", [1, 0, 0, 0]))
+    shift = np.asarray(st.get("shift", [0.0, 0.0, 60.0 + 40.0 * index]), float)
+    dna = st["dna"]
+    n = len(st["seq"])
+    meta = dict(kind="na", id=st["id"], seq=list(st["seq"]), n=n, dna=dna, p5=st.get("p5", True),
+                start=st.get("start", 1), index=index, phosphates=0)  # fmt: skip
+    for i, b in enumerate(st["seq"]):
+        t = RES[NA_TEMPLATE[b]]
+        if b == "T":
+            rn = "DT"
+        elif dna:
+            rn = "D" + b
+        else:
+            rn = {"bare": b, "R": "R" + b}.get(st.get("style", "bare"), b)
+        th = np.radians(36.0 * i)
+        Rz = np.array([[np.cos(th), -np.sin(th), 0], [np.sin(th), np.cos(th), 0], [0, 0, 1]])
+        has_p = False
+        for k, v in t["atoms"].items():
+            if not topo.heavy(k) and st.get("hyd", "none") == "none":
+                continue
+            if not topo.heavy(k):
+                continue  # hydrogen naming differs between DNA and RNA templates: heavy atoms only
+            if dna and k == "O2'" and b != "T":
+                continue
+            if i == 0 and not st.get("p5", True) and k in ("P", "O1P", "O2P"):
+                continue
+            if k == "P":
+                has_p = True
+            kk = {"O1P": "OP1", "O2P": "OP2"}.get(k, k) if st.get("newnames") else k
+            xyz = R @ (Rz @ v + np.array([0.0, 0.0, 6.5 * i])) + shift
+            s.add(name=kk, resn=rn, chain=st["id"], seq=meta["start"] + i, xyz=xyz,
+                  group=("na", index, i))  # fmt: skip
+        if has_p and i > 0:
+            meta["phosphates"] += 1
+    if st.get("ter", True) and s.records:
+        s.ters.add(len(s.records) - 1)
+    return meta
